@@ -1027,8 +1027,24 @@ class PseudoNetCDFFile(PseudoNetCDFSelfReg, object):
                 else:
                     outf.variables[key] = val
             else:
+                # a plain array takes the dimensions of a variable used in
+                # the expression that has the same shape
+                vdimt = dimt
+                for symbol in [None] + list(symbols):
+                    if symbol is None:
+                        cand = tmpvar
+                    else:
+                        cand = vardict.get(symbol.get_name(), None)
+                    if (
+                        isinstance(cand, (PseudoNetCDFVariable,
+                                          NetCDFVariable)) and
+                        cand is not val and
+                        tuple(cand.shape) == tuple(np.shape(val))
+                    ):
+                        vdimt = cand.dimensions
+                        break
                 outf.createVariable(key, val.dtype.char,
-                                    dimt, values=val, **propd)
+                                    vdimt, values=val, **propd)
 
         return outf
 
